@@ -25,6 +25,23 @@ def gen(rng, tier, n_quick=60, n_thorough=1500):
         cases.append(core.case_from_struct(s, Weight=False, Solve=True, Assemble=True, Error="", ViaPre=False))
     for i in range(n):
         s = G.gen_solvable(rng)
+        if i % 7 == 3:
+            # node lines annotated with (stale) equation numbers, as when a nodes section is pasted from a
+            # preprocessed file: the definition reader accepts them, the numbering must not be influenced
+            ids = list(s.nodes)
+            s.node_dof_notes = {k: tuple(rng.sample(range(0, 40), 3)) for k in rng.sample(ids, max(1, len(ids) // 2))}
+            s.meta["kind"] = s.meta.get("kind", "?") + "+dofnotes"
+        if i % 9 == 5:
+            # identifiers are free text: numbers spelled with leading zeros ('01' and '1' are two different nodes)
+            pool = ["1", "01", "001", "10", "010", "2", "02", "20", "0020", "3", "03", "30", "007", "7", "70", "12", "012", "0"]
+            nid = dict(zip(list(s.nodes), pool))
+            if len(nid) == len(s.nodes):
+                s.nodes = {nid[k]: v for k, v in s.nodes.items()}
+                for b in s.bars:
+                    b["n1"], b["n2"] = nid[b["n1"]], nid[b["n2"]]
+                if getattr(s, "node_dof_notes", None):
+                    s.node_dof_notes = {nid[k]: v for k, v in s.node_dof_notes.items()}
+                s.meta["kind"] = s.meta.get("kind", "?") + "+numeric-ids"
         cases.append(core.case_from_struct(s, Weight=core.weights(i), Solve=True, Assemble=True, Error=ERRORS[i % len(ERRORS)],
                                            ViaPre=(i % 4 == 1)))
     return cases
@@ -60,5 +77,5 @@ def exact_of(c, o):
 
 RULE = ("loads applied exactly on supported bar ends (half of them solved from the .inkfempre read back) first; beams (cantilever, fixed-fixed, fixed-pin, pin-roller, fixed-slide) at axis-aligned and Pythagorean angles, polylines of 2-4 bars with free / pinned joints and rollers, "
         "portal, A- and braced frames, pin-jointed trusses, one-cell grid frames; loads: concentrated and linear distributed forces, concentrated moments, local or global axes, full or "
-        "partial spans, positions at / next to slice cuts and within 1e-10 of each other; own weight on every third; --error in {1e-5, 1e-3, 1e-4, 1e-6}. Every fourth structure is solved from its own .inkfempre text read back (the history pre -> solve-from-pre). Every structure is solved in "
+        "partial spans, positions at / next to slice cuts and within 1e-10 of each other; own weight on every third; every seventh with node lines carrying stale equation numbers; --error in {1e-5, 1e-3, 1e-4, 1e-6}. Every fourth structure is solved from its own .inkfempre text read back (the history pre -> solve-from-pre). Every structure is solved in "
         "process by the implementation; structures it refuses to solve (iteration budget) are counted as skipped. ")
